@@ -504,3 +504,59 @@ Lemma update_gap_misaligns :
   let s := update {| cur := 0; lists := [ex_set 0] |} [ex_set 2] in
   cur s = 2 /\ nth_set s 1 = Some (ex_set 2) /\ nth_set s 2 = None.
 Proof. vm_compute. repeat split; reflexivity. Qed.
+
+(* ------------------------------------------------------------------ any number of lookups and appends *)
+(* When every access to the store happens inside a critical section of gs.lock (extracted: explorer_reader_locked), a concurrent
+   execution of any number of GetGuardianSet / GetCurrentGuardianSet / updateGuardianSets calls is a sequence of critical sections:
+   lookups (compare with the current index, then index the list) and appends.  An append's batch comes from a chain fetch that
+   started at (the current index some earlier critical section saw) + 1, so it is contiguous and starts no later than current+1. *)
+Inductive sop := OLookup (i : Z) | OAppend (from : Z) (batch : list gset).
+
+Definition sop_ok (s : store) (o : sop) : Prop :=
+  match o with
+  | OLookup i => 0 <= i
+  | OAppend from b => contiguous from b /\ 0 <= from <= cur s + 1 /\ from + Z.of_nat (length b) <= 2 ^ 32
+  end.
+
+Definition lookup_locked (s : store) (i : Z) : rres :=
+  if i <=? cur s then match nth_set s i with Some g => RSet g | None => RPanic end else RMiss.
+
+Definition sstep (s : store) (o : sop) : store * option rres :=
+  match o with
+  | OLookup i => (s, Some (lookup_locked s i))
+  | OAppend _ b => (update s b, None)
+  end.
+
+Fixpoint all_ok (s : store) (ops : list sop) : Prop :=
+  match ops with
+  | [] => True
+  | o :: t => sop_ok s o /\ all_ok (fst (sstep s o)) t
+  end.
+
+Fixpoint srun (s : store) (ops : list sop) : store * list (Z * rres) :=
+  match ops with
+  | [] => (s, [])
+  | o :: t => let '(s1, r) := sstep s o in
+              let '(s2, rs) := srun s1 t in
+              (s2, match o, r with OLookup i, Some x => (i, x) :: rs | _, _ => rs end)
+  end.
+
+Lemma nth_set_grows s s' i g : (exists suf, lists s' = lists s ++ suf) -> nth_set s i = Some g -> nth_set s' i = Some g.
+Proof. intros [suf E] H. eapply nth_set_app; eassumption. Qed.
+
+Theorem any_sequence ops : forall s, aligned s -> all_ok s ops ->
+  let '(s', rs) := srun s ops in
+  aligned s' /\ cur s <= cur s' /\ (exists suf, lists s' = lists s ++ suf) /\
+  forall i r, In (i, r) rs -> match r with RSet g => g_index g = i /\ nth_set s' i = Some g | RMiss => True | RPanic => False end.
+Proof.
+  induction ops as [|o t IH]; intros s Hal Hok.
+  - cbn. split; [exact Hal|]. split; [lia|]. split; [exists []; rewrite app_nil_r; reflexivity|]. intros i r [].
+  - cbn [all_ok] in Hok. destruct Hok as [Ho Hrest]. cbn [srun]. destruct o as [i|from b]; cbn [sstep fst] in *.
+    + specialize (IH s Hal Hrest). destruct (srun s t) as [s2 rs]. destruct IH as (Hal2 & Hcur & Hsuf & Hrs).
+      split; [exact Hal2|]. split; [exact Hcur|]. split; [exact Hsuf|]. intros j r [E|Hin]; [|apply Hrs; exact Hin].
+      inversion E; subst; clear E. unfold lookup_locked. destruct (Z.leb_spec j (cur s)) as [Hle|Hgt]; [|exact I].
+      destruct (nth_set_aligned s j Hal ltac:(cbn in Ho; lia)) as (g & Eg & Ig). rewrite Eg. split; [exact Ig|]. eapply nth_set_grows; eassumption.
+    + destruct Ho as (Hct & Hfrom & Hlen). destruct (update_contig s b from Hal Hct Hfrom Hlen) as (Hal1 & Hc1 & suf1 & Hs1).
+      specialize (IH (update s b) Hal1 Hrest). destruct (srun (update s b) t) as [s2 rs]. destruct IH as (Hal2 & Hcur & (suf2 & Hsuf) & Hrs).
+      split; [exact Hal2|]. split; [lia|]. split; [exists (suf1 ++ suf2); rewrite Hsuf, Hs1, app_assoc; reflexivity|exact Hrs].
+Qed.
